@@ -178,21 +178,31 @@ func execInsideOperationMiddleware(c *Ctx) {
 				}
 				n++
 				good := false
-				if par := fn.Parent(); par != nil {
+				for par := range allFuncsOfPkg(fn.Pkg) {
 					for _, b2 := range par.Blocks {
 						for _, i2 := range b2.Instrs {
 							c2, ok := i2.(*ssa.Call)
 							if !ok {
 								continue
 							}
+							isChain := false
+							if sc := c2.Call.StaticCallee(); sc != nil && strings.Contains(strings.ToLower(sc.Name()), "operationmiddleware") {
+								isChain = true
+							}
+							if fa, isF := loadAddr(an.Strip(c2.Call.Value)).(*ssa.FieldAddr); isF && strings.Contains(strings.ToLower(fieldNameOf(fa)), "operationmiddleware") {
+								isChain = true
+							}
+							if !isChain {
+								continue
+							}
 							for _, a := range c2.Call.Args {
-								if mc, ok := an.Strip(a).(*ssa.MakeClosure); ok && mc.Fn == ssa.Value(fn) {
-									if sc := c2.Call.StaticCallee(); sc != nil && strings.Contains(strings.ToLower(sc.Name()), "operationmiddleware") {
-										good = true
-									}
-									if fa, isF := loadAddr(an.Strip(c2.Call.Value)).(*ssa.FieldAddr); isF && strings.Contains(strings.ToLower(fieldNameOf(fa)), "operationmiddleware") {
-										good = true
-									}
+								mc, ok := an.Strip(a).(*ssa.MakeClosure)
+								if !ok {
+									continue
+								}
+								mf, _ := mc.Fn.(*ssa.Function)
+								if mf == fn || (mf != nil && mf.Synthetic != "" && mf.Name() == fn.Name()+"$bound") {
+									good = true // the literal itself, or the method value d.exec of a small dispatch type
 								}
 							}
 						}
